@@ -1125,15 +1125,17 @@ def send_cycle_key(ds, unfinished):
         return None
     if any(len(d["chain"]) > 2 for d in cyc):
         return "send-lock-cycle:third-simulator"
-    if len(cyc) == 2:
+    # shortest cycle among plain sender -> receiver edges
+    e2 = {(d["chain"][0], d["chain"][1]) for d in cyc}
+    if any((y, x) in e2 for x, y in e2):
         return "crossing-sends:A->B||B->A"
-    if len(cyc) == 3 and len({d["node"] for d in cyc}) == 3:
-        return "cyclic-sends:A->B||B->C||C->A"
-    return "send-lock-cycle:%d-sends" % len(cyc)
+    return "cyclic-sends:A->B||B->C||C->A"
 
 
 def classify(prop, ds, rec, symptom):
-    """stable key of a violation: (op kinds, placement relation, racing call site / symptom)"""
+    """stable key of a violation: (op kinds, placement relation, racing call site / symptom).  Root causes the
+    lock monitor observes directly come first; then the named classes; otherwise
+    `<op variants>:<relation>:<symptom>` over the ops that stand in the strongest relation."""
     unfinished = set(rec["hang"]["unfired"]) if rec.get("hang") else None
     if prop == "C04" and symptom in ("hang", "not-quiescent") and not rec["timeouts"]:
         k = send_cycle_key(ds, unfinished) or send_cycle_key(ds, None)
@@ -1144,21 +1146,36 @@ def classify(prop, ds, rec, symptom):
     if rec["timeouts"] and prop == "C04":
         return "lock-nodes-timeout:cancelled-request-leak"
     rel, who = relation(ds, unfinished)
-    kinds = "||".join(sorted(ds[i]["kind"] for i in who))
-    if prop == "C03":
-        if rel == "same-handle":
-            return "same-handle:" + kinds
-        if rel == "third-party":
-            return "merge-vs-third-party-list-mutation:update_virtual_merge"
-    return "%s:%s:%s" % (kinds, rel, symptom)
+    if rel == "same-handle":
+        return "same-handle:%s%s" % ("||".join(sorted(ds[i]["kind"] for i in who)), "" if prop == "C03" else ":" + symptom)
+    if prop == "C03" and rel == "third-party":
+        return "merge-vs-third-party-list-mutation:update_virtual_merge"
+    return "%s:%s:%s" % ("||".join(sorted(ds[i]["variant"] for i in who)), rel, symptom)
+
+
+def classify_set(prop, ds, rec, symptom):
+    """key for a set of ops.  For 3-4 ops: the generic key of the whole set plus, as candidates, the keys its pairs
+    would get -- the caller attributes the failure to a pair-level key that is already established (known finding or
+    found by the exhaustive pair exploration of the same run) and only otherwise reports the set's own key."""
+    key = classify(prop, ds, rec, symptom)
+    if len(ds) <= 2 or key.startswith(("lock-nodes-timeout", "crossing-sends", "self-send", "cyclic-sends", "send-lock-cycle")):
+        return key
+    cands = []
+    pairs = sorted(itertools.combinations(range(len(ds)), 2), key=lambda ij: _RANK[pair_relation(ds[ij[0]], ds[ij[1]])])
+    for i, j in pairs:
+        if rec.get("hang") and i not in rec["hang"]["unfired"] and j not in rec["hang"]["unfired"]:
+            continue
+        r2 = dict(rec)
+        if rec.get("hang"):
+            r2["hang"] = dict(rec["hang"], unfired=[x for x, y in enumerate((i, j)) if y in rec["hang"]["unfired"]])
+        k = classify(prop, [ds[i], ds[j]], r2, symptom)
+        if k not in cands:
+            cands.append(k)
+    return "MULTI\t" + "\t".join([key] + cands)
 
 
 def c03_symptom(rec, ok, what):
-    wf = rec["obs"]["wf"]
-    if not ok:
-        errs = sorted({o.split(":", 1)[1] for o in rec["obs"]["outcomes"] if o and o.startswith("err:")})
-        return "no-serialisation" + ("+err=" + ",".join(errs) if errs else "") + ("+not-wf" if wf else "")
-    return "not-wf"
+    return "not-wf" if ok else "no-serialisation"
 
 
 # ---------------------------------------------------------------------------
@@ -1194,6 +1211,11 @@ def placements():
     # two qubits of C simulated at A in different registers, and two in the same
     P["remote-pair"] = ([["new", A, "s0"], ["new", A, "s1"], ["g1", "s0", "H"], ["send", "s0", C], ["send", "s1", C],
                          ["new", A, "a0"], ["new", B, "b0"], ["new", C, "c0"]], 1)
+    # the other half of F12 (4 nodes): C's list starts with d0, simulated at a FOURTH node, so that C's destructive
+    # measurement of d0 holds only Dave's lock while B's merge (locks Alice, Bob) walks C's list
+    P["f12-4"] = ([["new", "Dave", "d0"], ["send", "d0", C], ["new", A, "r0"], ["new", A, "r1"], ["new", A, "r2"],
+                   ["g1", "r0", "H"], ["g2", "r0", "r1", "cnot"], ["g2", "r0", "r2", "cnot"], ["send", "r0", B],
+                   ["send", "r1", C], ["send", "r2", C], ["new", B, "b0"], ["g1", "b0", "H"]], 2)
     return P
 
 
@@ -1333,7 +1355,7 @@ def judge_into(out, prop, case, ds, spec, rec, refs, label):
     if prop == "C04":
         out.judged += 1
         for sym, what in judge_c04(rec):
-            fails.append((classify("C04", ds, rec, sym), sym, what))
+            fails.append((classify_set("C04", ds, rec, sym), sym, what))
     else:
         if not rec["completed"] or not rec["settled"]:
             out.counts["~not judged for C03: did not complete (C04's domain)"] += 1
@@ -1358,7 +1380,7 @@ def judge_into(out, prop, case, ds, spec, rec, refs, label):
                 else "equals serial order %s but the bookkeeping is not well formed" % (order,)
             if rec["obs"]["wf"]:
                 text += "; not well formed at quiescence: %s" % ",".join(rec["obs"]["wf"])
-            fails.append((classify("C03", ds, rec, sym), sym, "outcomes %s; %s" % (rec["obs"]["outcomes"], text)))
+            fails.append((classify_set("C03", ds, rec, sym), sym, "outcomes %s; %s" % (rec["obs"]["outcomes"], text)))
     for key, sym, what in fails:
         kinds = " || ".join("%s@%s %s" % (d["variant"], d["tag"], jkey(d["op"])) for d in ds)
         replay = {"case": case, "spec": spec, "actions": rec["actions"], "symptom": sym,
@@ -1460,15 +1482,22 @@ def _run_task(task, out):
                 r1 = run_schedule(c1, {"kind": "fifo"})
                 solo.append(max(int(r1["steps_of"].get("0", 0)), int(fifo["steps_of"].get(str(i), 0))) if r1["completed"]
                             else max(2, int(fifo["steps_of"].get(str(i), 2))))
-            run_grid(go, solo, task.get("grid", 1), rng, task.get("cap2", 200))
+
+            def go_grid(spec):
+                rec = go(spec)
+                if task.get("timer_on_grid") and has_g2 and rec["timer_steps"] and rng.random() < 0.1:
+                    go({"kind": "timer", "base": spec, "at": [rng.choice(rec["timer_steps"])], "mode": "lock_nodes"})
+                return rec
+            run_grid(go_grid, solo, task.get("grid", 1) if not vtag else 1, rng, task.get("cap2", 40))
         if task.get("timer", True):
             ts = fifo["timer_steps"]
             for s in ts:
                 specs.append({"kind": "timer", "base": {"kind": "fifo"}, "at": [s], "mode": "one"})
                 if has_g2:
                     specs.append({"kind": "timer", "base": {"kind": "fifo"}, "at": [s], "mode": "lock_nodes"})
-            if task.get("timer2", False):
-                for s1, s2 in itertools.combinations(ts, 2):
+            if task.get("timer2", False) and not vtag:
+                two = list(itertools.combinations(ts, 2))
+                for s1, s2 in (rng.sample(two, 12) if len(two) > 12 else two):
                     specs.append({"kind": "timer", "base": {"kind": "fifo"}, "at": [s1, s2], "mode": "one"})
         for s in range(task.get("pct", 0)):
             specs.append({"kind": "pct", "seed": rng.randrange(1 << 30), "depth": 1 + s % 3, "len": 40,
@@ -1479,10 +1508,7 @@ def _run_task(task, out):
         if cap and len(specs) > cap:
             specs = rng.sample(specs, cap)
         for spec in specs:
-            rec = go(spec)
-            if spec["kind"] == "phases" and task.get("timer_on_grid") and rec["timer_steps"] and has_g2:
-                s = rng.choice(rec["timer_steps"])
-                go({"kind": "timer", "base": spec, "at": [s], "mode": "lock_nodes"})
+            go(spec)
     if len(out.samples) < 1:
         out.samples.append({"placement": base.get("name"), "conc": base["conc"], "schedules": out.n})
 
@@ -1531,7 +1557,7 @@ def plan(prop, thorough, rng, scale=1.0):
     seen = set()
     cases = []
     for name, (prefix, size) in placements().items():
-        if size == 0 or thorough:
+        if size == 0 or (thorough and size == 1):
             cases.append(({"name": name, "nodes": NODES, "max_qubits": 5, "prefix": prefix}, None))
     cases.append((capacity_case(), ("new", "send", "meas")))
     for case, only in cases:
@@ -1565,12 +1591,12 @@ def plan(prop, thorough, rng, scale=1.0):
             label = "%s|%s|%s" % (" || ".join(sorted(d["variant"] for d in ds)), relation(ds)[0], case["name"])
             g2 = sum(d["kind"] == "g2" for d in ds)
             tasks.append({"prop": prop, "case": case, "ps": ps, "conc": conc, "seed": rng.randrange(1 << 30),
-                          "label": label, "grid": 2 if thorough else 1, "cap2": int(150 * scale), "timer": True,
+                          "label": label, "grid": 2 if thorough else 1, "cap2": int(40 * scale), "timer": True,
                           "timer2": thorough, "timer_on_grid": thorough, "equal_backoff": g2 > 0,
                           "host_orders": True, "pct": 0, "rand": 4 if thorough else 0,
                           "cost": 60 + 400 * g2})
         # 3-4 operations, sampled
-        nsets = int((400 if thorough else 40) * scale)
+        nsets = int((250 if thorough else 40) * scale)
         for _ in range(nsets):
             k = rng.choice((3, 3, 4))
             # bias towards conflicts: pick a seed op, then ops sharing a node of its footprint
@@ -1639,31 +1665,41 @@ def _indexed(a):
 # ---------------------------------------------------------------------------
 
 def witnesses(prop):
-    """key -> (case, spec): the minimal directed scenario of each finding this module knows.  A finding
-    entry in known_findings.json may carry its own "witness": {"case", "spec"}, which takes precedence."""
+    """key -> [(case, spec)]: the minimal directed scenarios of each finding this module knows.  A finding entry
+    in known_findings.json may carry its own "witness": {"case", "spec"}, which is run as well."""
     P = placements()
-    W = {}
-    local, cross, f12 = P["local"][0], P["cross"][0], P["f12"][0]
-    holder = {"name": "holder", "nodes": NODES, "prefix": P["remote-pair"][0],
+    W = collections.defaultdict(list)
+    local, cross, f12, shared = P["local"][0], P["cross"][0], P["f12"][0], P["shared"][0]
+    holder = {"name": "holder", "prefix": P["remote-pair"][0],
               "conc": [[A, ["lock", A]], [A, ["sleep", 10.0]], [A, ["unlock", A]], [C, ["g2", "s0", "s1", "cnot"]]]}
+    xmerge = {"name": "cross", "prefix": cross, "conc": [[A, ["g2", "a0", "y", "cnot"]], [B, ["g2", "b0", "x", "cnot"]]]}
     if prop == "C04":
-        W["crossing-sends:A->B||B->A"] = ({"name": "local", "prefix": local[:3], "conc": [[A, ["send", "a0", B]], [B, ["send", "b0", A]]]},
-                                          {"kind": "fifo"})
-        W["self-send"] = ({"name": "local", "prefix": local[:1], "conc": [[A, ["send", "a0", A]]]}, {"kind": "fifo"})
-        W["lock-nodes-timeout:foreign-release"] = (holder, {"kind": "phases", "phases": [[0, 2]], "tail": [0, 1, 2, 3]})
+        W["crossing-sends:A->B||B->A"].append(({"name": "local", "prefix": local[:3], "conc": [[A, ["send", "a0", B]], [B, ["send", "b0", A]]]},
+                                               {"kind": "fifo"}))
+        W["self-send"].append(({"name": "local", "prefix": local[:1], "conc": [[A, ["send", "a0", A]]]}, {"kind": "fifo"}))
+        W["cyclic-sends:A->B||B->C||C->A"].append((
+            {"name": "local", "prefix": local[:4], "conc": [[A, ["send", "a0", B]], [B, ["send", "b0", C]], [C, ["send", "c0", A]]]},
+            {"kind": "fifo"}))
+        W["send-lock-cycle:third-simulator"].append((
+            {"name": "cross", "prefix": cross[:7], "conc": [[A, ["send", "a0", B]], [B, ["send", "x", C]]]}, {"kind": "fifo"}))
+        W["lock-nodes-timeout:foreign-release"].append((holder, {"kind": "phases", "phases": [[0, 2]], "tail": [0, 1, 2, 3]}))
+        W["lock-nodes-timeout:foreign-release"].append((xmerge, {"kind": "fifo"}))
     else:
-        W["merge-vs-third-party-list-mutation:update_virtual_merge"] = (
+        W["merge-vs-third-party-list-mutation:update_virtual_merge"].append((
             {"name": "f12", "prefix": f12[:12], "conc": [[B, ["g2", "b0", "r0", "cnot"]], [C, ["meas", "c0", 0]]]},
-            {"kind": "phases", "phases": [[1, 0], [0, 10]], "tail": [1, 0]})
-        W["same-handle:send||send"] = ({"name": "local", "prefix": local[:1], "conc": [[A, ["send", "a0", B]], ["Alice#2", ["send", "a0", B]]]},
-                                       {"kind": "phases", "phases": [[1, 1], [0, 1]], "tail": [1, 0]})
-        W["same-handle:measD||send"] = ({"name": "local", "prefix": local[:1], "conc": [[A, ["meas", "a0", 0]], ["Alice#2", ["send", "a0", B]]]},
-                                        {"kind": "phases", "phases": [[1, 1], [0, 1]], "tail": [1, 0]})
-        W["lock-nodes-timeout:foreign-release"] = (
-            {"name": "cross", "prefix": cross, "conc": [[A, ["g2", "a0", "y", "cnot"]], [B, ["g2", "b0", "x", "cnot"]]]},
-            {"kind": "fifo"})
+            {"kind": "phases", "phases": [[1, 0], [0, 10]], "tail": [1, 0]}))
+        W["merge-vs-third-party-list-mutation:update_virtual_merge"].append((
+            {"name": "f12-4", "nodes": NODES + ["Dave"], "prefix": P["f12-4"][0],
+             "conc": [[B, ["g2", "b0", "r0", "cnot"]], [C, ["meas", "d0", 0]]]},
+            {"kind": "phases", "phases": [[1, 10], [0, 10]], "tail": [1, 0]}))
+        W["same-handle:send||send"].append(({"name": "local", "prefix": local[:1], "conc": [[A, ["send", "a0", B]], ["Alice#2", ["send", "a0", B]]]},
+                                            {"kind": "phases", "phases": [[1, 1], [0, 1]], "tail": [1, 0]}))
+        W["same-handle:measD||send"].append(({"name": "local", "prefix": local[:1], "conc": [[A, ["meas", "a0", 0]], ["Alice#2", ["send", "a0", B]]]},
+                                             {"kind": "phases", "phases": [[1, 1], [0, 1]], "tail": [1, 0]}))
+        W["lock-nodes-timeout:foreign-release"].append((xmerge, {"kind": "fifo"}))
     for k in W:
-        W[k][0].setdefault("nodes", NODES)
+        for case, _ in W[k]:
+            case.setdefault("nodes", NODES)
     return W
 
 
@@ -1683,7 +1719,7 @@ def run_one(prop, case, spec):
     return out, rec
 
 
-def shrink(prop, key, replay, budget=120):
+def shrink(prop, key, replay, budget=160):
     """greedy: drop prefix ops, drop scripted coins, lower the hold indices -- keep what still fails with the same key"""
     case, spec = replay["case"], replay["spec"]
     tries = [0]
@@ -1707,13 +1743,16 @@ def shrink(prop, key, replay, budget=120):
             if r:
                 case, best = c, r
                 break
-    i = len(case["prefix"]) - 1
-    while i >= 0:
-        c = dict(case, prefix=case["prefix"][:i] + case["prefix"][i + 1:])
-        r = fails(c, spec)
-        if r:
-            case, best = c, r
-        i -= 1
+    changed = True
+    while changed:
+        changed = False
+        i = len(case["prefix"]) - 1
+        while i >= 0:
+            c = dict(case, prefix=case["prefix"][:i] + case["prefix"][i + 1:])
+            r = fails(c, spec)
+            if r:
+                case, best, changed = c, r, True
+            i -= 1
     if spec["kind"] == "phases":
         ph = [list(p) for p in spec["phases"]]
         for idx in range(len(ph)):
@@ -1743,32 +1782,50 @@ def check(ctx, prop):
     # ---- directed witnesses --------------------------------------------------
     W = witnesses(prop)
     for k, e in known.items():
-        w = e.get("witness")
-        if w:
-            W[k] = (w["case"], w["spec"])
+        for w in ([e["witness"]] if isinstance(e.get("witness"), dict) else e.get("witness") or []):
+            if (w["case"], w["spec"]) not in W[k]:
+                W[k].append((w["case"], w["spec"]))
     merged = {}
+    directed = set()
     nwit = 0
-    for key, (case, spec) in sorted(W.items()):
-        o, rec = run_one(prop, case, spec)
-        nwit += 1
-        res.count("directed witness|%s" % key)
-        res.case({"witness": key, "actions": rec["actions"]})
-        res.traces += 1
-        if key in o.viol:
-            merged[key] = o.viol[key]
-        elif key in known:
-            msg = "STALE-FINDING: property=%s key=%s the directed witness of this open finding no longer fails" % (prop, key)
-            print(msg)
-            res.notes.append(msg)
-        for k2, v in o.viol.items():
-            if k2 != key:
-                merged.setdefault(k2, v)
+    for key in sorted(W):
+        hit = 0
+        for case, spec in W[key]:
+            o, rec = run_one(prop, case, spec)
+            nwit += 1
+            res.count("directed witness|%s" % key)
+            res.case({"witness": key, "actions": rec["actions"]})
+            res.traces += 1
+            if key in o.viol:
+                hit += 1
+                if key not in merged:
+                    merged[key] = o.viol[key]
+                    directed.add(key)
+            else:
+                msg = "STALE-WITNESS: property=%s key=%s directed witness %s no longer fails (got %s)" % (
+                    prop, key, jkey(case["conc"]), sorted(o.viol) or "no violation")
+                res.notes.append(msg)
+            for k2, v in o.viol.items():
+                if k2 != key:
+                    merged.setdefault(k2, v)
+        if not hit and key in known:
+            print("STALE-FINDING: property=%s key=%s no directed witness of this open finding fails any more" % (prop, key))
     # ---- exploration ---------------------------------------------------------------
     scale = float(os.environ.get("VERIF_SCHED_SCALE", "1"))
     tasks = plan(prop, ctx.thorough, rng, scale)
     outs, wall = run_tasks(tasks, ctx.scale(150, 1100))
     nsched = ncompleted = njudged = ndeliv = 0
     skipped = 0
+    single, multi = [], []
+
+    def merge(k, v):
+        cur = merged.get(k)
+        if cur is None:
+            merged[k] = list(v)
+        else:
+            cur[3] += v[3]
+            if tuple(v[0]) < tuple(cur[0]) and k not in directed:
+                cur[0], cur[1], cur[2] = v[0], v[1], v[2]
     for t, o in zip(tasks, outs):
         if o is None:
             skipped += 1
@@ -1787,24 +1844,35 @@ def check(ctx, prop):
             if n.startswith("HARNESS-ERROR") or len(res.notes) < 12:
                 res.notes.append(n)
         for k, v in o.viol.items():
-            cur = merged.get(k)
-            if cur is None:
-                merged[k] = list(v)
-            else:
-                cur[3] += v[3]
-                if tuple(v[0]) < tuple(cur[0]) and k not in W:
-                    cur[0], cur[1], cur[2] = v[0], v[1], v[2]
+            (multi if k.startswith("MULTI\t") else single).append((k, v))
+    for k, v in single:
+        merge(k, v)
+    established = set(merged) | set(known)
+    for k, v in multi:
+        parts = k.split("\t")[1:]
+        k2 = next((c for c in parts[1:] if c in established), None)
+        if k2 is not None:
+            res.count("~3-4 op failure attributed to an established pair-level key", v[3])
+        else:                      # the pair in the strongest relation names the failure
+            k2 = parts[1] if len(parts) > 1 else parts[0]
+            res.count("~3-4 op failure with a key no pair exploration established", v[3])
+        merge(k2, v)
     if any(n.startswith("HARNESS-ERROR") for n in res.notes):
         raise core.MachineryError("schedule exploration: " + [n for n in res.notes if n.startswith("HARNESS-ERROR")][0][:500])
     res.evaluations += nsched
     res.traces += njudged
+    final = {}
     for key in sorted(merged):
         size, what, replay, cnt = merged[key]
         if os.environ.get("VERIF_SCHED_DEBUG"):
             print("DEBUG %s x%d size=%s :: %s" % (key, cnt, size, what[:400]))
-        if key not in known:
+        if key not in known or os.environ.get("VERIF_SCHED_DUMP"):
             replay = shrink(prop, key, replay) or replay
+        final[key] = {"what": what, "replay": replay, "count": cnt}
         res.violation(key, "%s (%d failing schedules with this key)" % (what, cnt), replay)
+    if os.environ.get("VERIF_SCHED_DUMP"):
+        with open(os.environ["VERIF_SCHED_DUMP"], "w") as f:
+            json.dump(final, f, indent=1, default=str)
     res.rule = ("every pair of operation instances (single-qubit gate, two-qubit gate in every merge case, in-place / "
                 "destructive measurement, send, creation; issued by clients of different nodes or two clients of one node; "
                 "one representative per isomorphism class of (ops, holders, simulators, registers)) on placements %s: "
